@@ -45,6 +45,7 @@ func run(c *vf.Ctx) {
 	t0 = time.Now()
 	dnBinary(c)
 	c.Set("wall_s_dn_binary", time.Since(t0).Seconds())
+	histories(c)
 }
 
 // ---------------------------------------------------------------- parameter lattices
